@@ -376,7 +376,7 @@ func (t *tdExt) step(r *h.Report, done []string, f []string, preS, preB []regEnt
 			}
 		}
 		// SPEC (C10): every other peer continues to be served
-		if impl != "reply" && !w.gone[p]["1"] {
+		if impl != "reply" && !w.gone[p]["1"] && !w.bare[p]["1"] {
 			r.SpecFail("C10/other-peer-not-served", done, fmt.Sprintf("%s: a connected peer got no reply", op))
 		}
 	default:
@@ -485,6 +485,9 @@ func genTdHistory(rng regRng, n, np int, withShort bool) (ops []string, firstSho
 		}
 		if rng.Intn(25) == 0 {
 			ops = append(ops, fmt.Sprintf("addent %d %s", 1+rng.Intn(np), []string{"1", "1.1", "2"}[rng.Intn(3)]))
+		}
+		if rng.Intn(30) == 0 {
+			ops = append(ops, fmt.Sprintf("bareent %d %s", 1+rng.Intn(np), []string{"1", "1.1", "2"}[rng.Intn(3)]))
 		}
 		if rng.Intn(12) == 0 {
 			// a removed SKI connects again (skipped while it is connected), binds as before and writes with a counter its
@@ -666,6 +669,9 @@ func TestTeardown(t *testing.T) {
 		"approve 1 100002", "wr 1 1 1 1 1 100003 L", "deny 1 100003", "approve 1 100001", "notify 1 1", "read 1", "drop 1", "reconnect 1", "bind 1 1 1 1 1 1", "wr 1 1 1 1 1 100001 L", "approve 1 100001", "approve 1 100001"})
 	run([]string{"peers 2", "bind 2 1 2 1 2 2", "wr 2 1 2 1 2 100001 L", "bind 1 1 1 1 1 1", "wr 1 1 1 1 1 100002 L", "approve 1 100002", "drop 1", "approve 2 100001", "reconnect 1", "bind 1 1 1 1 1 1",
 		"wr 1 1 1 1 1 100002 S", "approve 1 100002", "fire", "wr 1 1 1 1 1 100004 L", "approve 1 100004", "approve 1 100004"})
+	// an entity announced again without features: stale entries, pending approval and bookkeeping go when it is removed
+	run([]string{"peers 2", "csub 1 1", "cbind 1 1", "bind 1 1 1 1 1 1", "sub 1 1 1 1 1 1", "wr 1 1 1 1 1 100001 L", "bareent 1 1", "subs 1", "binds 1", "chas 1", "wr 1 1 1 1 1 100002 L", "dropent 1 1", "subs 1", "binds 1", "chas 1",
+		"approve 1 100001", "approve 1 100001", "notify 1 1", "read 2"})
 	// a peer that is still before its discovery reply when another connection is removed must be served afterwards
 	run([]string{"peers 2 late:2", "bind 1 1 1 1 1 1", "csub 1 1", "drop 1", "chas 2", "discover 2", "chas 2", "csub 2 1", "bind 2 1 1 1 1 1", "wr 2 1 1 1 1 100001 L", "approve 2 100001", "read 2", "dropent 2 1.1", "addent 2 1.1", "sub 2 1.1 1 1 1 1", "subs 2"})
 	run([]string{"peers 3 late:3", "sub 1 1 1 1 1 1", "sub 2 1 1 1 1 1", "drop 1", "drop 2", "discover 3", "chas 3", "sub 3 1 1 1 1 1", "notify 1 1"})
@@ -688,7 +694,7 @@ func TestTeardown(t *testing.T) {
 		return append(ops, tdObserve(b, np, withFire)...)
 	}
 	// long timers only: a fault at every position
-	for i := 0; i < h.Scale(12, 150); i++ {
+	for i := 0; i < h.Scale(10, 150); i++ {
 		np := 2 + rng.Intn(2)
 		b, _ := genTdHistory(rng, 15+rng.Intn(25), np, false)
 		for pos := 1; pos <= len(b); pos++ {
@@ -734,7 +740,7 @@ func TestTeardown(t *testing.T) {
 		injectAll(append(append([]string{}, setupA...), "dropent 1 2"), tear, []string{"bind 2 2 1 2 1 1", "sub 2 2 1 2 1 1"}, 2)
 	}
 	// generated: a random teardown at the end of a generated history, a random operation of another peer at a random event
-	for i := 0; i < h.Scale(40, 600); i++ {
+	for i := 0; i < h.Scale(25, 600); i++ {
 		np := 2 + rng.Intn(2)
 		b, _ := genTdHistory(rng, 10+rng.Intn(20), np, false)
 		p := 1 + rng.Intn(np)
